@@ -120,7 +120,20 @@ def cases(rng, tier, shard, nshards, phase):
                 case["expect"] = "TypeError"
             elif st == "nonint":
                 eps = Fraction(1, 10 ** 6) if rng.random() < 0.5 else Fraction(1, 2)
-                if rule == "PluralityVeto":
+                if rule == "PluralityVeto" and rng.random() < 0.4:
+                    # two ballots with the SAME ranking whose fractional weights add up to a whole number: each of
+                    # them is an invalid ballot, whatever they sum to
+                    b0 = spec["b"][idx]
+                    w = Fraction(b0["w"])
+                    part = Fraction(1, rng.choice([2, 3, 4])) + rng.choice([0, 0, 1])
+                    if w.denominator != 1:
+                        w = Fraction(int(w) + 1)
+                    while part >= w:
+                        w += 1
+                    spec["b"][idx] = dict(b0, w=rat(part))
+                    spec["b"].insert(rng.randint(0, len(spec["b"])), dict(b0, w=rat(w - part)))
+                    case["kind"] = "fractions-adding-up"
+                elif rule == "PluralityVeto":
                     spec["b"][idx]["w"] = rat(Fraction(spec["b"][idx]["w"]) + eps)
                 else:
                     # make candidate 0 win a majority with a non-integer ballot
